@@ -79,7 +79,7 @@ def main():
     mp = SEEDED / "MATRIX.json"
     if mp.exists():
         allres = json.loads(mp.read_text())
-    with ThreadPoolExecutor(max_workers=4) as ex:
+    with ThreadPoolExecutor(max_workers=int(os.environ.get('MATRIX_JOBS', '4'))) as ex:  # one checkout shares Generated/*.lean: use MATRIX_JOBS=1 per checkout and several checkouts
         for r in ex.map(one_property, props):
             allres.update(r)
     head = sh(["git", "-C", "/repo", "log", "-1", "--format=%h %s"]).stdout.strip()
